@@ -372,10 +372,14 @@ func (m *ConnectMessage) Decode(src []byte) (int, error) {
 	}
 	total += n
 
-	if n, err = m.decodeMessage(src[total:]); err != nil {
+	if n, err = m.decodeMessage(src[total : total+int(m.remlen)]); err != nil {
 		return total + n, err
 	}
 	total += n
+
+	if n != int(m.remlen) {
+		return total, fmt.Errorf("connect/Decode: Remaining length (%d) does not match the length of the variable header and payload (%d)", m.remlen, n)
+	}
 
 	m.dirty = false
 
